@@ -775,12 +775,18 @@ pub fn program_text(forms: &[Sx]) -> String {
 }
 
 fn sweep(sp: &Space, policy: Policy, fresh_upto: u64) -> Acc {
+    sweep_range(sp, policy, fresh_upto, 0, sp.total)
+}
+
+/// the programs with global index in [lo, hi)
+fn sweep_range(sp: &Space, policy: Policy, fresh_upto: u64, lo: u64, hi: u64) -> Acc {
     let total = sp.total;
     par::sweep(
-        total,
+        hi - lo,
         2048,
         |_| new_worker(),
-        |w, acc, i| {
+        |w, acc, k| {
+            let i = k + lo;
             let (forms, nodes, tags, disc) = sp.program(i);
             let r = judge_program(w, &forms, policy, false);
             acc.evals += 1;
@@ -823,6 +829,54 @@ fn sweep(sp: &Space, policy: Policy, fresh_upto: u64) -> Acc {
     )
 }
 
+fn segment() -> u64 {
+    std::env::var("C01_SEGMENT").ok().and_then(|s| s.parse().ok()).unwrap_or(30_000_000)
+}
+
+fn sweep_segmented(ctx: &Ctx, sp: &Space, policy_index: usize, max_nodes: u32, scope_nodes: u32, loop_nodes: u32, fresh_upto: u64) -> Result<Acc, String> {
+    let exe = std::env::current_exe().map_err(|e| e.to_string())?;
+    let dir = std::path::PathBuf::from(format!("/verif/target/scratch/c01-{}", std::process::id()));
+    std::fs::create_dir_all(&dir).map_err(|e| e.to_string())?;
+    let mut acc = Acc::new();
+    let mut lo = 0u64;
+    let mut seg = 0;
+    while lo < sp.total {
+        let hi = (lo + segment()).min(sp.total);
+        let out = dir.join(format!("segment-{}.json", seg));
+        let st = std::process::Command::new(&exe)
+            .args(["worker", "C01", &ctx.tier_name()])
+            .args([lo, hi, policy_index as u64, max_nodes as u64, scope_nodes as u64, loop_nodes as u64, fresh_upto].iter().map(|x| x.to_string()))
+            .arg(&out)
+            .status()
+            .map_err(|e| format!("spawning segment process: {}", e))?;
+        if !st.success() {
+            return Err(format!("segment process for programs {}..{} ended with {:?}", lo, hi, st.code()));
+        }
+        let text = std::fs::read_to_string(&out).map_err(|e| format!("segment result {}: {}", out.display(), e))?;
+        let j: serde_json::Value = serde_json::from_str(&text).map_err(|e| e.to_string())?;
+        let part = Acc::from_json(&j).ok_or("segment result does not parse")?;
+        if part.evals != hi - lo {
+            return Err(format!("segment {}..{} reports {} evaluations", lo, hi, part.evals));
+        }
+        acc.merge(part);
+        let _ = std::fs::remove_file(&out);
+        lo = hi;
+        seg += 1;
+    }
+    let _ = std::fs::remove_dir_all(&dir);
+    acc.notes.push(format!("swept in {} consecutive segment processes of <= {} programs", seg, segment()));
+    Ok(acc)
+}
+
+/// segment process entry: `mc worker C01 <tier> <lo> <hi> <policy> <max_nodes> <scope_nodes> <loop_nodes> <fresh_upto> <outfile>`
+pub fn worker(args: &[String]) {
+    let n = |k: usize| -> u64 { args[k].parse().expect("numeric argument") };
+    let (lo, hi, pi) = (n(2), n(3), n(4) as usize);
+    let sp = Space::new(n(5) as u32, n(6) as u32, n(7) as u32);
+    let acc = sweep_range(&sp, POLICIES[pi], n(8), lo, hi);
+    std::fs::write(&args[9], acc.to_json().to_string()).expect("writing the segment result");
+}
+
 pub fn run(ctx: &Ctx) -> i32 {
     let max_nodes: u32 = std::env::var("C01_NODES").ok().and_then(|s| s.parse().ok()).unwrap_or(if ctx.thorough() { 9 } else { 7 });
     let scope_nodes: u32 = std::env::var("C01_SCOPE_NODES").ok().and_then(|s| s.parse().ok()).unwrap_or(if ctx.thorough() { 13 } else { 11 });
@@ -831,8 +885,21 @@ pub fn run(ctx: &Ctx) -> i32 {
     // programs (simplest first) that are additionally re-run on a fresh interpreter
     let fresh_upto: u64 = std::env::var("C01_FRESH").ok().and_then(|s| s.parse().ok()).unwrap_or(if ctx.thorough() { 20_000 } else { 2_000 });
     let mut best: Option<(Acc, Policy)> = None;
-    for policy in POLICIES {
-        let acc = sweep(&sp, policy, fresh_upto);
+    // the interpreter leaks the frame <-> closure cycles of the programs it runs (a few hundred
+    // bytes per program): above SEGMENT programs the space is swept in consecutive child processes
+    let segmented = sp.total > segment();
+    for (pi, policy) in POLICIES.into_iter().enumerate() {
+        let acc = if segmented {
+            match sweep_segmented(ctx, &sp, pi, max_nodes, scope_nodes, loop_nodes, fresh_upto) {
+                Ok(a) => a,
+                Err(e) => {
+                    eprintln!("MACHINERY-ERROR: {}", e);
+                    return 2;
+                }
+            }
+        } else {
+            sweep(&sp, policy, fresh_upto)
+        };
         let nv = acc.n_violations;
         let better = best.as_ref().map(|(b, _)| nv < b.n_violations).unwrap_or(true);
         if better {
